@@ -151,7 +151,9 @@ def handle (j : Json) : Json :=
         let e := testEl t
         let r1 := runFR e c [] xs
         -- "spec": the right-hand side of theorem `run_blocks` (block specification), compared as well
-        let base : List (String × Json) := [("r", ofOuts r1.1),
+        -- "rc": `RunConsistent` on this flow (the element's run = fill every value, request), for elements with both
+        let rcOk := t.map || ((e.run [] xs) == blockFill e [] xs)
+        let base : List (String × Json) := [("r", ofOuts r1.1), ("rc", Json.bool rcOk),
           ("spec", ofOuts (specBlocks (blockOf e c) e.reset c.bufsize c.reset c.yor [] (chunks c.bufsize xs))),
           -- the right-hand side of theorem `seq_run_blocks` (FillRequestSeq: `_run_fill_compute`)
           ("seqspec", ofOuts (specBlocks
@@ -212,8 +214,23 @@ def handle (j : Json) : Json :=
       match parseEl (getD j "el"), parseOpsX (getD j "ops") with
       | some t, some ops =>
         let ev := if str? (getD j "ev") == some "request" then Eval.atRequest else Eval.atCall
-        let tr := traceOpsX (testElX t) ev c.bufsize c.reset c.bufferInput c.yor ops (StX.init [])
-        Json.mkObj [("t", ofList ofObs tr.1)]
+        let e := testElX t
+        let tr := traceOpsX e ev c.bufsize c.reset c.bufferInput c.yor ops (StX.init [])
+        -- "chk": what the theorems of Props/C16X.lean say about this history, evaluated:
+        --  [`bufKind` (atCall: no generator object is kept; atRequest: only generator objects),
+        --   buffer_output: the next request() starts with `iterReq` over the kept generator objects (atRequest) /
+        --     with the kept results (atCall),
+        --   never-raising element: the counters are those of the history without its reset() calls (`dropResets`)]
+        let s := tr.2
+        let nxt := (requestX e c.bufsize c.reset c.bufferInput c.yor s).1
+        let pre : List (List Int) := match ev with
+          | .atRequest => (iterReq e s.bufOut.length s.el).1
+          | .atCall => s.bufOut.flatMap (fun p => match p with | .done r => r | .gen => [])
+        let prefOk := c.bufferInput || (nxt.take pre.length == pre)
+        let cntOk := t.stop.isSome ||
+          (traceOpsX e ev c.bufsize c.reset c.bufferInput c.yor (dropResets ops) (StX.init [])).2.counters == s.counters
+        Json.mkObj [("t", ofList ofObs tr.1),
+          ("chk", Json.arr #[Json.bool (bufKind ev s.bufOut), Json.bool prefOk, Json.bool cntOk])]
       | _, _ => err "bad opsx args"
     | some "splitx" =>
       match parseEl (getD j "el"), intList? (getD j "xs") with
